@@ -94,7 +94,11 @@ func atomOfLunarPath(p string) string {
 func atomsOf(c *Ctx, fn *ssa.Function, bind map[int]constant.Value, lunarPrefix string, own func(string) string) []string {
 	ef := c.eff.With(fn, bind)
 	set := map[string]bool{}
+	var paths []string
 	for _, p := range ef.paramReads(0) {
+		paths = append(paths, expandKeyAlternatives(p)...)
+	}
+	for _, p := range paths {
 		a := ""
 		switch {
 		case lunarPrefix == "":
@@ -446,4 +450,31 @@ func declaredInputsRule(c *Ctx, r *Report, rule string, pick func(ai accessorInp
 	if n < floor {
 		r.bad(rule, "instance floor "+rule, "-", fmt.Sprintf("only %d accessors matched (floor %d)", n, floor))
 	}
+}
+
+
+// expandKeyAlternatives: a map key that is one of several constants (an entry of a local literal table
+// walked by a loop) is written [a|b] in an access path; the path stands for one path per alternative.
+func expandKeyAlternatives(p string) []string {
+	i := strings.Index(p, "[")
+	for i >= 0 {
+		j := strings.Index(p[i:], "]")
+		if j < 0 {
+			break
+		}
+		key := p[i+1 : i+j]
+		if strings.Contains(key, "|") {
+			var out []string
+			for _, alt := range strings.Split(key, "|") {
+				out = append(out, expandKeyAlternatives(p[:i+1]+alt+p[i+j:])...)
+			}
+			return out
+		}
+		k := strings.Index(p[i+j:], "[")
+		if k < 0 {
+			break
+		}
+		i = i + j + k
+	}
+	return []string{p}
 }
